@@ -1064,7 +1064,10 @@ func callBuiltin(caller *frame, callpos token.Pos, fn *ssa.Builtin, args []value
 				m.clear()
 			}
 		case []value:
-			panic(engineError{"clear(slice)"})
+			et := fn.Type().(*types.Signature).Params().At(0).Type().Underlying().(*types.Slice).Elem()
+			for i := range m {
+				m[i] = zero(et)
+			}
 		}
 		return nil
 
